@@ -3,7 +3,7 @@
 //!   kernel id=… cls=<fn>|<class> fn=<name> <args…> impl=<result> [o_c13=…] [o_c14=…]
 
 use crate::gen;
-use crate::util::{catch, ints, Rng};
+use crate::util::{catch, ints, Rng, hex};
 use flacenc::verif_hooks as vh;
 
 fn fold(v: i32) -> u64 {
@@ -196,6 +196,48 @@ pub fn generate(seed: u64, cases: usize, out: &mut dyn FnMut(String)) {
         out(format!(
             "kernel id=lb{i} cls=lpcerr|edge{}|o{order}|p{precision} fn=lpcerr coefs={} shift=0 precision={precision} sig={} impl={impl_s} impl_fits={fits}",
             i % 4, ints(&coefs), ints(&sig)
+        ));
+    }
+    // ---- Context (MD5 / sample count / frame count) fed block by block through both delivery paths, with
+    // zero-length deliveries in the middle (C14: the context advances identically)
+    for i in 0..14usize {
+        let ch = 1 + (i % 3);
+        let bps = gen::BPS[i % gen::BPS.len()];
+        let k = (bps + 7) / 8;
+        let lens: Vec<usize> = match i % 7 {
+            0 => vec![32, 0, 32, 21],
+            1 => vec![0, 16],
+            2 => vec![16, 0],
+            3 => vec![0],
+            4 => vec![7, 0, 0, 9],
+            _ => (0..1 + rng.below(5)).map(|_| if rng.chance(30) { 0 } else { 1 + rng.below(40) as usize }).collect(),
+        };
+        let total: usize = lens.iter().sum();
+        let data: Vec<i32> = (0..total * ch).map(|_| rng.range(-(1i64 << (bps - 1)), (1i64 << (bps - 1)) - 1) as i32).collect();
+        let run = |bytes_path: bool| -> String {
+            use flacenc::source::Fill;
+            let mut ctx = flacenc::source::Context::new(bps, ch);
+            let mut pos = 0usize;
+            for n in &lens {
+                let block = &data[pos * ch..(pos + n) * ch];
+                let r = if bytes_path {
+                    let b: Vec<u8> = block.iter().flat_map(|v| v.to_le_bytes()[..k].to_vec()).collect();
+                    ctx.fill_le_bytes(&b, k)
+                } else {
+                    ctx.fill_interleaved(block)
+                };
+                if r.is_err() {
+                    return "err".to_string();
+                }
+                pos += n;
+            }
+            format!("{}:{}:{}", hex(&ctx.md5_digest()), ctx.total_samples(), ctx.current_frame_number().map_or("none".to_string(), |x| x.to_string()))
+        };
+        let (a, b) = (run(false), run(true));
+        let o14 = if a == b { "ok".to_string() } else { format!("fail:context_after_integer_delivery_{a}_after_byte_delivery_{b}") };
+        out(format!(
+            "kernel id=ctx{i} cls=ctx|c{ch}|b{bps}|{} fn=ctx ch={ch} bps={bps} lens={} data={} impl_int={a} impl_bytes={b} o_c14={o14}",
+            lens.iter().filter(|n| **n == 0).count(), lens.iter().map(|n| n.to_string()).collect::<Vec<_>>().join(","), ints(&data)
         ));
     }
     // ---- deinterleave / LE conversions (C14): every channel count, stale destination contents
